@@ -41,11 +41,20 @@ Print Assumptions C08_input_by_class.
 Theorem C08_absent_input : forall classes ns names acc d n0 e,
   (match i_ref d with inl s => inl s | inr k => match cls classes k with inl c => inl (c_slug c) | inr e => inr e end end) = inl n0 ->
   dhas (prefixed ns n0) acc = false ->
-  find_task_full_name false (prefixed ns n0) names = inr e ->
+  find_task_full_name false (prefixed ns n0) names = inr e -> e <> EAmbiguous ->
   resolve_one classes ns names acc d =
   if i_required d then inr EMissingInput else inl (dset (prefixed ns n0) (inr (i_default d)) acc).
 Proof. exact resolve_one_missing. Qed.
 Print Assumptions C08_absent_input.
+
+(* an input, required or optional, whose name matches several tasks without a less-nested one is an error *)
+Theorem C08_ambiguous_input : forall classes ns names acc d n0,
+  (match i_ref d with inl s => inl s | inr k => match cls classes k with inl c => inl (c_slug c) | inr e => inr e end end) = inl n0 ->
+  dhas (prefixed ns n0) acc = false ->
+  find_task_full_name false (prefixed ns n0) names = inr EAmbiguous ->
+  resolve_one classes ns names acc d = inr EAmbiguous.
+Proof. exact resolve_one_ambiguous. Qed.
+Print Assumptions C08_ambiguous_input.
 
 Theorem C08_missing_input_rejected : forall classes tc current names d e l1 l2,
   declared_inputs tc current names = l1 ++ d :: l2 ->
